@@ -615,15 +615,51 @@ func init() {
 		if s.conc && t.conc {
 			return ex.mkBool(strings.EqualFold(s.s, t.s))
 		}
-		if s.Len() != t.Len() {
-			// could still be equal under folding for non-ASCII; restrict to ASCII
-			for _, x := range []*Str{s, t} {
-				for i := 0; i < x.Len(); i++ {
-					if !ex.Branch(ex.ts.BVCmp(OpULt, ex.strAt(x, i), ex.byteC(0x80))) {
+		// Decompose both strings into runes: a symbolic byte is case-split to ASCII (anything
+		// else is unsupported), concrete non-ASCII bytes are decoded as Go does. Folding is then
+		// decided rune by rune; an ASCII letter equals a non-ASCII rune only through the simple
+		// fold orbit (k/K/U+212A, s/S/U+017F).
+		type elem struct {
+			b *Term // ASCII byte (symbolic or concrete), nil for a wide rune
+			r rune
+		}
+		split := func(x *Str) []elem {
+			var out []elem
+			n := x.Len()
+			for i := 0; i < n; {
+				bt := ex.strAt(x, i)
+				if !bt.IsConst() {
+					if !ex.Branch(ex.ts.BVCmp(OpULt, bt, ex.byteC(0x80))) {
 						panic(unsupported("EqualFold non-ASCII symbolic"))
 					}
+					out = append(out, elem{b: bt})
+					i++
+					continue
 				}
+				if bt.C < 0x80 {
+					out = append(out, elem{b: bt})
+					i++
+					continue
+				}
+				var buf []byte
+				for j := i; j < n && j < i+4; j++ {
+					bj := ex.strAt(x, j)
+					if !bj.IsConst() {
+						if !ex.Branch(ex.ts.BVCmp(OpULt, bj, ex.byteC(0x80))) {
+							panic(unsupported("EqualFold non-ASCII symbolic"))
+						}
+						break
+					}
+					buf = append(buf, byte(bj.C))
+				}
+				r, size := utf8.DecodeRune(buf)
+				out = append(out, elem{r: r})
+				i += size
 			}
+			return out
+		}
+		es, et := split(s), split(t)
+		if len(es) != len(et) {
 			return ex.ts.False
 		}
 		ts := ex.ts
@@ -631,15 +667,37 @@ func init() {
 			isU := ts.And(ts.BVCmp(OpULe, ex.byteC('A'), b), ts.BVCmp(OpULe, b, ex.byteC('Z')))
 			return ts.Ite(isU, ts.BVBin(OpAdd, b, ex.byteC(32)), b)
 		}
-		r := ts.True
-		for i := 0; i < s.Len(); i++ {
-			x, y := ex.strAt(s, i), ex.strAt(t, i)
-			if !ex.Branch(ts.And(ts.BVCmp(OpULt, x, ex.byteC(0x80)), ts.BVCmp(OpULt, y, ex.byteC(0x80)))) {
-				panic(unsupported("EqualFold non-ASCII symbolic"))
+		asciiOrbit := func(r rune) (byte, bool) {
+			for c := unicode.SimpleFold(r); c != r; c = unicode.SimpleFold(c) {
+				if c < 0x80 {
+					return byte(unicode.ToLower(c)), true
+				}
 			}
-			r = ts.And(r, ts.Eq(lowerT(x), lowerT(y)))
+			return 0, false
 		}
-		return r
+		res := ts.True
+		for i := range es {
+			x, y := es[i], et[i]
+			switch {
+			case x.b != nil && y.b != nil:
+				res = ts.And(res, ts.Eq(lowerT(x.b), lowerT(y.b)))
+			case x.b == nil && y.b == nil:
+				if !strings.EqualFold(string(x.r), string(y.r)) {
+					return ts.False
+				}
+			default:
+				bt, r := x.b, y.r
+				if bt == nil {
+					bt, r = y.b, x.r
+				}
+				c, ok := asciiOrbit(r)
+				if !ok {
+					return ts.False
+				}
+				res = ts.And(res, ts.Eq(lowerT(bt), ex.byteC(c)))
+			}
+		}
+		return res
 	})
 	reg("strings.Compare", func(ex *Exec, _ *frame, _ *ssa.Function, a []Value) Value {
 		s, t := str(a[0]), str(a[1])
